@@ -1,5 +1,6 @@
 /- Line-protocol driver for C01 (object syntax): spec reader, lexer + stack-parser model. -/
 import PdfVerif.Model.StackParser
+import PdfVerif.Model.ObjParser
 import PdfVerif.Spec.Syntax
 
 open PdfVerif PdfVerif.Lexer
@@ -20,6 +21,11 @@ def answer (line : String) : String :=
       | some ts => StackParser.showState (StackParser.objects ts)
       | none => "fuel-exhausted"
     | _, _ => "bad-op"
+  | ["model.getobj", b, objid, h] =>
+    match b.toNat?, objid.toInt?, bytesOfHex h with
+    | some b, some objid, some data =>
+      (ObjParser.getobjBytes b objid data).show
+    | _, _, _ => "bad-op"
   | ["model.lex", b, h] =>
     match b.toNat?, bytesOfHex h with
     | some b, some data =>
